@@ -477,6 +477,9 @@ def make_specs():
       ('a', 'static_in'), params=P(a='sequence', static_in='internal_mods'))
     F('apply_variable_mods', lambda w: pt.apply_variable_mods(w['a'], w['var_in'], 2, w['term_in'], w['term_in']),
       ('a', 'var_in', 'term_in'), params=P(a='sequence', var_in='internal_mods', term_in='nterm_mods'))
+    F('apply_variable_mods[annotation,max0]',
+      lambda w: pt.apply_variable_mods(w['a'], w['var_in'], 0, return_type='annotation'),
+      ('a', 'var_in'), params=P(a='sequence', var_in='internal_mods'))
     F('apply_variable_mods[annotation,append]',
       lambda w: pt.apply_variable_mods(w['a'], w['var_in'], 1, mode='append', return_type='annotation'),
       ('a', 'var_in'), params=P(a='sequence', var_in='internal_mods'))
@@ -810,7 +813,8 @@ def single_check(si, spec, w0=None, wire=None):
     if db0 != db1:
         fails.append(fail('db-disturbed', tag, [spec.name], f'{spec.api}: EntryDb maps rebound or resized by the call'))
     # results share no mutable state with the arguments
-    if not spec.accessor:
+    shared = []
+    if True:
         recs = world_record_ids(w)
         try:
             mutate(raw, recs)
@@ -818,7 +822,8 @@ def single_check(si, spec, w0=None, wire=None):
             pass
         d2 = {k: deep_dump(v) for k, v in w.items()}
         sh = diff_worlds(d1, d2)
-        if sh:
+        shared = sh
+        if sh and not spec.accessor:
             fails.append(fail('shared-state', tag, [spec.name],
                               f'{spec.api}: editing the returned value changed the caller\'s objects: ' +
                               '; '.join(f'{k}: {d1[k][:120]} -> {d2[k][:120]}' for k in sh), sh))
@@ -833,18 +838,21 @@ def single_check(si, spec, w0=None, wire=None):
             fails.append(fail('rng-dependent', tag, [spec.name],
                               f'{spec.api}: result differs between two calls on equal fresh arguments (global generator reseeded '
                               f'in between): {r[:150]} / {r2[:150]} / {r3[:150]}'))
-    return fails, changed
+    return fails, changed, shared
 
 
 def task_single(si):
     st = STATE
     fails, observed, n = [], {}, 0
+    shares = {}
     full0 = db_stamp_full()
     for s in st.specs:
-        f, changed = single_check(si, s)
+        f, changed, shared = single_check(si, s)
         n += 1
         fails += f
         st.writes[si][s.name] = changed
+        if shared:
+            shares[s.name] = shared
         for k in changed:
             if s.editor and k == s.target:
                 continue
@@ -861,7 +869,7 @@ def task_single(si):
         fails.append(fail('global-state-disturbed', si, [culprit.name if culprit else '<all single calls>'],
                           (culprit.api if culprit else '?') + ': content of the EntryDb maps or of a module-level table of the package '
                           'changed during the call'))
-    return {'evals': n, 'failures': fails, 'observed': {k: sorted(v) for k, v in observed.items()},
+    return {'evals': n, 'failures': fails, 'shares': shares, 'observed': {k: sorted(v) for k, v in observed.items()},
             'writes': st.writes[si]}
 
 
@@ -971,7 +979,7 @@ def eval_case(case):
         if n not in st.by_name:
             return [{'kind': 'stale-case', 'detail': f'spec {n} no longer exists', 'calls': names, 'shape': case['shape'], 'changed': []}]
     g0 = module_tables_digest()
-    f, _ = single_check(None, st.by_name[names[-1]], w0=w0, wire=case['shape'])
+    f, _, _ = single_check(None, st.by_name[names[-1]], w0=w0, wire=case['shape'])
     out += f
     if module_tables_digest() != g0:
         out.append(fail('global-state-disturbed', case['shape'], names, st.by_name[names[-1]].api +
